@@ -513,6 +513,35 @@ func c11Neighbours(r *mon.Run) {
 		}
 		r.Eval("neighbour|"+tn, true)
 	}
+	// many imports competing for a base name whose numbered forms are predeclared types: the k-th competitor of
+	// "int" must not be called int8, int16 … (typed literals in the same File would stop being conversions)
+	for ci, comp := range []struct {
+		base string
+		n    int
+	}{{"int", 9}, {"uint", 9}, {"int", 17}, {"uint", 17}, {"int", 33}, {"float", 33}, {"uint", 33}, {"int", 65}, {"float", 65}, {"complex", 65}, {"uint", 65}, {"complex", 129}} {
+		c := mon.Case{Gen: "neighbour", Seed: r.Seed, Index: int64(1000 + ci), Extra: mon.J(comp)}
+		f := jen.NewFile("p")
+		for k := 0; k < comp.n; k++ {
+			f.Var().Id(fmt.Sprintf("Ref%d", k)).Op("=").Qual(fmt.Sprintf("example.com/m%d/%s", k, comp.base), "Sym")
+		}
+		for i, v := range vals {
+			f.Var().Id(fmt.Sprintf("X%d", i)).Op("=").Lit(v)
+		}
+		src, fail := renderFile(f)
+		if fail != "" {
+			r.Violate("batch-unusable", c, "typed literals next to %d imports called %s: %s", comp.n, comp.base, fail)
+			continue
+		}
+		probs, fatal := judgeLitSource(src, vals)
+		if fatal != "" {
+			r.Violate("batch-unusable", c, "typed literals next to %d imports called %s: %s", comp.n, comp.base, fatal)
+		}
+		for i, p := range probs {
+			r.Violate("literal-next-to-import", c, "Lit(%s) in a File with %d imports called %s: %s", fmtExact(vals[i]), comp.n, comp.base, p)
+		}
+		r.Count("files_with_many_imports_competing_for_a_type_name_stem", 1)
+		r.Eval(fmt.Sprintf("competing|%s|%d", comp.base, comp.n), true)
+	}
 	// stateful callbacks: a counter, an iterator over values of mixed types
 	{
 		c := mon.Case{Gen: "litfunc-stateful", Seed: r.Seed}
